@@ -6,6 +6,12 @@ META = {
     "C05": {"ref": "DESIGN.md §8 C05",
             "text": "Same symbolic runs as C04; the assertions compare every token's and comment's reported start/end with positions computed from the reference lexer's byte offsets (exact for tab-free ASCII), plus 1-based / ordered / contained for all accepted inputs.",
             "note": "Bounded input length; exact columns only for tab-free ASCII; parser error locations covered by the parser harnesses."},
+    "C01": {"ref": "DESIGN.md §8 C01",
+            "text": "Totality is decided per path by the solver: no panic escapes the entry point (runtime panics are implicit assertions: index, nil, type assertion, slice bounds, division, negative make), and every path stays inside an instruction / call-depth budget (unwinding assertion). Inputs: symbolic byte strings into the real tokenizer; symbolic token sequences (finite-domain selectors over a lexeme table, including rows no tokenizer can produce, EOF presence symbolic, strict x dialect symbolic) into the real low-level parser, with accepted trees serialised.",
+            "note": "Bounded by input length / token count (evidence.coverage.bounds). A budget overrun is replayed natively under a timeout and only then reported (hang or fatal stack overflow)."},
+    "C13": {"ref": "DESIGN.md §8 C13",
+            "text": "On every error-returning path of the C01 runs the solver discharges: errors.As reaches *errors.Error (the real Unwrap chains are executed), the code belongs to the right family (E1xxx from Tokenize, E2xxx from the parser), the message is non-empty and a set location lies within the input.",
+            "note": "Same bounds as C01; message wording and hints are executed but not asserted on."},
 }
 _PENDING = "no check registered yet in this round (harness under construction; see DESIGN.md section 8)"
 NOT_APPLICABLE = [{"property_id": "C%02d" % k, "reason": _PENDING} for k in range(1, 21) if "C%02d" % k not in META]
